@@ -17,7 +17,7 @@ use heck::{ToSnakeCase, ToUpperCamelCase};
 use proc_macro2::{Ident, Span, TokenStream};
 use quote::quote;
 use std::cell::{Cell, RefCell};
-use std::collections::HashMap;
+use std::collections::{HashMap, HashSet};
 
 use crate::errors::error_object_definition;
 use crate::types::{
@@ -1008,16 +1008,28 @@ impl Context {
     }
 
     fn type_log_safety(&self, ty: &Type) -> Option<LogSafety> {
+        self.type_log_safety_inner(ty, &mut HashSet::new())
+    }
+
+    // `visiting` holds the types on and below the path of the current top-level query. A type
+    // found in it contributes nothing new (its fields already are, or are being, folded into the
+    // result), so recursive definitions terminate without any provisional value being cached.
+    fn type_log_safety_inner<'a>(
+        &'a self,
+        ty: &'a Type,
+        visiting: &mut HashSet<&'a TypeName>,
+    ) -> Option<LogSafety> {
         match ty {
             Type::Primitive(primitive) => self.primitive_log_safety(primitive),
-            Type::Optional(optional) => self.type_log_safety(optional.item_type()),
-            Type::List(list) => self.type_log_safety(list.item_type()),
-            Type::Set(set) => self.type_log_safety(set.item_type()),
-            Type::Map(map) => self.combine_safety(
-                self.type_log_safety(map.key_type()),
-                self.type_log_safety(map.value_type()),
-            ),
-            Type::Reference(def) => self.type_log_safety_ref(def),
+            Type::Optional(optional) => self.type_log_safety_inner(optional.item_type(), visiting),
+            Type::List(list) => self.type_log_safety_inner(list.item_type(), visiting),
+            Type::Set(set) => self.type_log_safety_inner(set.item_type(), visiting),
+            Type::Map(map) => {
+                let key = self.type_log_safety_inner(map.key_type(), visiting);
+                let value = self.type_log_safety_inner(map.value_type(), visiting);
+                self.combine_safety(key, value)
+            }
+            Type::Reference(def) => self.type_log_safety_ref(def, visiting),
             Type::External(_) => None,
         }
     }
@@ -1029,21 +1041,32 @@ impl Context {
         }
     }
 
-    fn type_log_safety_ref(&self, name: &TypeName) -> Option<LogSafety> {
+    fn type_log_safety_ref<'a>(
+        &'a self,
+        name: &'a TypeName,
+        visiting: &mut HashSet<&'a TypeName>,
+    ) -> Option<LogSafety> {
         let ctx = &self.types[name];
 
         if let CachedLogSafety::Computed(safety) = &*ctx.log_safety.borrow() {
             return safety.clone();
         }
 
-        // temporarily treat it as safe in case of recursive type definitions.
-        *ctx.log_safety.borrow_mut() = CachedLogSafety::Computed(Some(LogSafety::Safe));
+        // Only the type a query starts from sees every type reachable from it, so only its result
+        // is exact and may be cached; results computed further down depend on which ancestors
+        // happened to be on the path.
+        let is_root = visiting.is_empty();
+
+        // treat a type that is already being folded as safe in case of recursive type definitions.
+        if !visiting.insert(name) {
+            return Some(LogSafety::Safe);
+        }
 
         let safety = match &ctx.def {
             TypeDefinition::Alias(alias) => alias
                 .safety()
                 .cloned()
-                .or_else(|| self.type_log_safety(alias.alias())),
+                .or_else(|| self.type_log_safety_inner(alias.alias(), visiting)),
             // We consider enums to be safe even when not compiled as exhaustive, since we assume
             // unknown variants are simply from a future definition.
             TypeDefinition::Enum(_) => Some(LogSafety::Safe),
@@ -1053,7 +1076,7 @@ impl Context {
                 .map(|f| {
                     f.safety()
                         .cloned()
-                        .or_else(|| self.type_log_safety(f.type_()))
+                        .or_else(|| self.type_log_safety_inner(f.type_(), visiting))
                 })
                 .try_fold(LogSafety::Safe, |a, b| self.combine_safety(Some(a), b)),
             TypeDefinition::Union(union_) => union_
@@ -1062,7 +1085,7 @@ impl Context {
                 .map(|f| {
                     f.safety()
                         .cloned()
-                        .or_else(|| self.type_log_safety(f.type_()))
+                        .or_else(|| self.type_log_safety_inner(f.type_(), visiting))
                 })
                 // The unknown variant is unsafe to log, and we don't want log safety to vary based
                 // on the type generation configuration. However, like conjure-java we're going to
@@ -1070,7 +1093,9 @@ impl Context {
                 .fold(None, |a, b| self.combine_safety(a, b)),
         };
 
-        *ctx.log_safety.borrow_mut() = CachedLogSafety::Computed(safety.clone());
+        if is_root {
+            *ctx.log_safety.borrow_mut() = CachedLogSafety::Computed(safety.clone());
+        }
         safety
     }
 
